@@ -27,7 +27,7 @@ func init() {
 		Race:        true,
 		Cases: func(tier string) int {
 			if tier == "thorough" {
-				return 480
+				return 320
 			}
 			return 16
 		},
@@ -46,7 +46,7 @@ func raceFloors(tier string) map[string]int64 {
 		"hammer_ops_in_window": 5000, "executed:call": 70, "executed:a2u": 45, "executed:u2u": 19, "executed_failed": 60}
 	if tier == "thorough" {
 		for k, v := range m {
-			m[k] = v * 480 / 16 * 8 / 10
+			m[k] = v * 320 / 16 * 8 / 10
 		}
 	}
 	return m
